@@ -72,15 +72,17 @@ impl Palette {
                     let index = index - nb_colors;
                     if index < 64 {
                         for (c, sample) in channels_it.enumerate() {
-                            *sample = S::from_i32(
-                                ((index >> (2 * c)) % 4) * ((1i32 << bit_depth) - 1) / 4
-                                    + (1i32 << bit_depth.saturating_sub(3)),
-                            );
+                            // `bit_depth` can be up to 31: compute in 64 bits.
+                            let max_value = (1i64 << bit_depth) - 1;
+                            let value = ((index >> (2 * c).min(31)) % 4) as i64 * max_value / 4
+                                + (1i64 << bit_depth.saturating_sub(3));
+                            *sample = S::from_i32(value as i32);
                         }
                     } else {
                         let mut index = index - 64;
                         for sample in channels_it {
-                            *sample = S::from_i32((index % 5) * ((1i32 << bit_depth) - 1) / 4);
+                            let max_value = (1i64 << bit_depth) - 1;
+                            *sample = S::from_i32(((index % 5) as i64 * max_value / 4) as i32);
                             index /= 5;
                         }
                     }
